@@ -12,6 +12,7 @@ Hypothesis H5 : tp_plugin_requires_client P = true.
 Hypothesis H6 : tp_plugin_pins_client_cas P = true.
 Hypothesis H7 : tp_broker_serves_with_tls P = true.
 Hypothesis H8 : tp_pools_only_pinned P = true.
+Hypothesis H9 : tp_standard_verification P = true.
 
 (* on every path the serving side has a TLS config that requires a client certificate and pins exactly the
    legitimate peer's one-time certificate *)
@@ -46,7 +47,7 @@ Theorem host_pins_announced announced p s :
   p <> HostBrokered -> client_accepts (client_cfg P announced p) (Some s) = true ->
   exists k, announced = Some k /\ t_own s = Some k.
 Proof.
-  intros Hp. unfold client_cfg, host_cfg, pool. rewrite H1, H2, H3, H4, H8.
+  intros Hp. unfold client_cfg, host_cfg, pool. rewrite H1, H2, H3, H4, H8, H9.
   destruct p; try congruence; simpl; destruct (t_own s) as [k|]; try discriminate;
     destruct announced as [a|]; simpl; try discriminate;
     (destruct (Nat.eqb_spec k a); [intros _; subst; eauto|discriminate]).
@@ -59,8 +60,25 @@ Theorem legit_pair_accepted p :
   server_accepts (server_cfg P announced p) legit = true /\
   client_accepts (client_cfg P announced p) (server_cfg P announced p) = true.
 Proof.
-  unfold server_cfg, client_cfg, host_cfg, plugin_cfg, pool. rewrite H1, H2, H3, H4, H5, H6, H7, H8.
+  unfold server_cfg, client_cfg, host_cfg, plugin_cfg, pool. rewrite H1, H2, H3, H4, H5, H6, H7, H8, H9.
   destruct p; split; reflexivity.
 Qed.
 
+(* in particular the impostor that sends the announced certificate behind a leaf of its own is refused *)
+Theorem impostor_refused announced p :
+  p <> HostBrokered -> announced <> Some 8 -> client_accepts (client_cfg P announced p) (Some impostor_server) = false.
+Proof.
+  intros Hp Ha. destruct (client_accepts (client_cfg P announced p) (Some impostor_server)) eqn:E; [|reflexivity].
+  destruct (host_pins_announced announced p impostor_server Hp E) as (k & Hk & Ho).
+  cbn in Ho. injection Ho as <-. contradiction.
+Qed.
+
 End P.
+
+(* with the standard verification switched off the same host configuration lets the impostor in *)
+Lemma skip_verify_admits_impostor P p :
+  tp_host_cfg_at_start P = true -> tp_standard_verification P = false -> p <> HostBrokered ->
+  client_accepts (client_cfg P (Some plugin_key) p) (Some impostor_server) = true.
+Proof.
+  intros H1 H9 Hp. unfold client_cfg, host_cfg. rewrite H1, H9. destruct p; try congruence; reflexivity.
+Qed.
